@@ -183,6 +183,17 @@ def run_poses(case):
     # inputs untouched
     if not _peq(A, _mk(case['A']), 0) or not _peq(B, _mk(case['B']), 0):
         out.fail('pose:inputs-modified', desc)
+    # a point given with whole-number coordinates (a tuple or an integer array, e.g. a grid position) is the same point
+    ipt = [int(round(x)) for x in case['point']]
+    for name, P in (('A', A), ('B', B)):
+        want = P.rot_matrix @ np.array(ipt, float) + P.translation
+        for label, arg in (('tuple', tuple(ipt)), ('integer array', np.array(ipt))):
+            got = np.asarray(P.rotate_translate(arg), float)
+            if np.max(np.abs(got - want)) > 1e-9 * max(1.0, float(np.max(np.abs(want)))):
+                out.fail('pose:rotate-translate:integer-point', '%s: %s applied to the %s %r gives %r, R p + t is %r' % (desc, name, label, ipt, got.tolist(), want.tolist()))
+            back = np.asarray(P.inv_rotate_translate(P.rotate_translate(arg)), float)
+            if np.max(np.abs(back - np.array(ipt, float))) > 1e-8 * max(1.0, float(np.max(np.abs(want)))):
+                out.fail('pose:point-inverse:integer-point', '%s: %s, %s %r: inverse(forward(p)) = %r' % (desc, name, label, ipt, back.tolist()))
     # a pose that has been used and is then re-scaled (as the system scaler does with copies of the solved poses) is still a rigid motion
     import copy
     f = case.get('scale', 2.0)
